@@ -11,7 +11,7 @@ Two levels:
   flow.error / flow.live, sibling progress.
 * `async`: the real ProxyConnectionHandler.handle_hook + Flow.intercept/resume/kill/wait_for_resume on the
   virtual-time loop, with the real Intercept addon deciding; observed: which hook tasks have completed after
-  every step, and the watchdog's blocker count.
+  every step, and whether the idle watchdog is armed.
 """
 import asyncio, itertools, json
 from dataclasses import dataclass
@@ -530,12 +530,20 @@ class _Master:
     def __init__(self, marked): self.addons = _Addons(marked)
 
 
+def _op_flow(op):
+    """ops are [name] / [name, flow] / ["hook", intercepts] / ["hook", intercepts, flow]; flow defaults to 0"""
+    if op[0] == "hook": return op[2] if len(op) > 2 else 0
+    return op[1] if len(op) > 1 else 0
+
+
 def run_async(case):
     with installed() as loop:
         opts = moptions.Options()
         from mitmproxy.addons.proxyserver import Proxyserver
         Proxyserver().load(opts)
-        f = tflow.tflow(); f.live = True
+        nflows = 1 + max([_op_flow(op) for op in case["ops"]] + [0])
+        flows = [tflow.tflow() for _ in range(nflows)]
+        for f in flows: f.live = True
         marked = set()
         h = mode_servers.ProxyConnectionHandler(_Master(marked), None, _Writer(), opts, mode_specs.ProxyMode.parse("regular"))
         h.layer = _QuietLayer(h.layer.context)
@@ -548,7 +556,7 @@ def run_async(case):
         h.server_event = server_event
         tasks, steps = [], []
         for op in case["ops"]:
-            k = op[0]
+            k, f = op[0], flows[_op_flow(op)]
             killed = False
             if k == "hook":
                 # the Intercept addon intercepts this hook's flow or not
@@ -562,8 +570,9 @@ def run_async(case):
                     f.kill(); killed = True
             elif k == "intercept": f.intercept()
             loop.pump()
-            steps.append({"done": sorted(completed), "intercepted": int(f.intercepted), "killed": killed,
-                          "blocker": h.timeout_watchdog.blocker})
+            # the idle watchdog must stay disarmed exactly while a hook (incl. a held flow's) is pending
+            steps.append({"done": sorted(completed), "killed": killed,
+                          "armed": bool(h.timeout_watchdog.can_timeout.is_set())})
         for t in tasks: t.cancel()
         loop.pump()
         return {"level": "async", "steps": steps}
@@ -641,21 +650,32 @@ class Check(PropertyCheck):
                         else:
                             yield {"level": "world", "proto": p, "action": a, "between": list(bt)}
 
-    def _async_small(self, L):
+    def _async_small(self, L, L2=0):
         alphabet = [["hook", 1], ["hook", 0], ["intercept"], ["resume"], ["kill"]]
         for n in range(1, L + 1):
             for ops in itertools.product(alphabet, repeat=n):
                 if not any(o[0] == "hook" for o in ops): continue
                 yield {"level": "async", "ops": [list(o) for o in ops]}
+        # two flows on one connection: a hook of one flow completes while the other flow is held
+        two = [["hook", 1, 0], ["hook", 0, 0], ["resume", 0], ["kill", 0], ["hook", 1, 1], ["hook", 0, 1], ["resume", 1], ["kill", 1]]
+        for n in range(2, L2 + 1):
+            for ops in itertools.product(two, repeat=n):
+                if not (any(_op_flow(o) == 0 for o in ops) and any(_op_flow(o) == 1 for o in ops)): continue
+                if not any(o[0] == "hook" for o in ops): continue
+                yield {"level": "async", "ops": [list(o) for o in ops]}
 
     def generate(self, rng, tier):
+        yield from self._async_small(3, 3)                       # the cheap async schedules first
         yield from self._world_cases(3 if tier == "thorough" else 2)
-        yield from self._async_small(6 if tier == "thorough" else 4)
+        yield from self._async_small(6 if tier == "thorough" else 4, 5 if tier == "thorough" else 4)
         while True:
             n = rng.randint(3, 14)
+            nf = rng.randint(1, 3)
             ops = []
             for _ in range(n):
-                ops.append(rng.weighted([(3, ["hook", 1]), (2, ["hook", 0]), (1, ["intercept"]), (2, ["resume"]), (1, ["kill"])]))
+                fi = rng.randrange(nf)
+                o = rng.weighted([(3, ["hook", 1]), (2, ["hook", 0]), (1, ["intercept"]), (2, ["resume"]), (1, ["kill"])])
+                ops.append(o + [fi])
             yield {"level": "async", "ops": ops}
 
     def impl(self, case):
@@ -702,22 +722,27 @@ class Check(PropertyCheck):
                     if obs["live"]: fails.append("kill: the flow is still live")
         else:
             # a hook for a flow completes at once unless the flow is intercepted; it then completes exactly when the
-            # flow is resumed or killed; the watchdog is disarmed exactly while hooks are pending
-            intercepted, waiting, done = False, [], []
+            # flow is resumed or killed; hooks of other flows are not affected; the idle watchdog is disarmed exactly
+            # while some hook is pending
+            intercepted, waiting, done = {}, {}, []
             nh = 0
             for op, st in zip(case["ops"], obs["steps"]):
-                k = op[0]
+                k, fi = op[0], _op_flow(op)
                 if k == "hook":
-                    if op[1]: intercepted = True
-                    (waiting if intercepted else done).append(nh); nh += 1
-                elif k == "intercept": intercepted = True
+                    if op[1]: intercepted[fi] = True
+                    if intercepted.get(fi): waiting.setdefault(fi, []).append(nh)
+                    else: done.append(nh)
+                    nh += 1
+                elif k == "intercept": intercepted[fi] = True
                 elif k == "resume" or (k == "kill" and st.get("killed")):
-                    intercepted = False; done += waiting; waiting = []
+                    intercepted[fi] = False; done += waiting.pop(fi, [])
                 if sorted(st["done"]) != sorted(done):
-                    fails.append(f"after {op}: completed hooks {st['done']}, expected {sorted(done)} (intercepted={intercepted})")
+                    fails.append(f"after {op}: completed hooks {st['done']}, expected {sorted(done)}")
                     break
-                if st["blocker"] != len(waiting):
-                    fails.append(f"after {op}: watchdog blocker {st['blocker']} with {len(waiting)} hooks pending"); break
+                pending = sum(len(v) for v in waiting.values())
+                if st["armed"] != (pending == 0):
+                    fails.append(f"after {op}: idle watchdog {'armed' if st['armed'] else 'disarmed'} with {pending} hook(s) pending "
+                                 "(a held flow's connection would time out / an idle one never)"); break
         return fails
 
     KILL_FORWARDED = "kill: the message of the killed flow was forwarded"
@@ -786,7 +811,12 @@ class Check(PropertyCheck):
     # ---- model tie ----------------------------------------------------------------------------
     def model_lines(self, case):
         if case["level"] == "async":
-            return ["areset"] + [("hook %d" % op[1]) if op[0] == "hook" else op[0] for op in case["ops"]]
+            # flows are independent: each flow's own operations go through the model of one flow
+            lines = []
+            for fi in sorted({_op_flow(op) for op in case["ops"]}):
+                lines.append("areset")
+                lines += [("hook %d" % op[1]) if op[0] == "hook" else op[0] for op in case["ops"] if _op_flow(op) == fi]
+            return lines
         p, bt = case["proto"], case["between"]
         # the source's close is tied when nothing else is delivered after it (what still can be delivered after a
         # close depends on the transport, not on the layers under test)
@@ -820,7 +850,15 @@ class Check(PropertyCheck):
 
     def model_obs(self, case, replies):
         if case["level"] == "async":
-            return [r.split()[0] for r in replies[1:]]
+            # per flow: the task states after that flow's last operation
+            out, cur = [], None
+            for r in replies:
+                if r == "ok":
+                    if cur is not None: out.append(cur)
+                    cur = "-"
+                else: cur = r.split()[0]
+            out.append(cur)
+            return out
         mark = int(self._mark(case))
         outs_before = " ".join(replies[1:mark]).split()
         outs_after = " ".join(replies[mark:]).split()
@@ -836,10 +874,11 @@ class Check(PropertyCheck):
 
     def impl_view(self, case, obs):
         if case["level"] == "async":
-            n, out = 0, []
-            for op, st in zip(case["ops"], obs["steps"]):
-                if op[0] == "hook": n += 1
-                out.append("".join("d" if i in st["done"] else "w" for i in range(n)) or "-")
+            done = set(obs["steps"][-1]["done"]) if obs["steps"] else set()
+            out = []
+            for fi in sorted({_op_flow(op) for op in case["ops"]}):
+                idx = [i for i, op in enumerate([o for o in case["ops"] if o[0] == "hook"]) if _op_flow(op) == fi]
+                out.append("".join("d" if i in done else "w" for i in idx) or "-")
             return out
         ids = {"MSGAAAA": 1, "MSGBBBB": 1, "MSGCCCC": 2, "MSGRRRR": 3}
         sends = []
@@ -868,7 +907,7 @@ class Check(PropertyCheck):
             return out
         out = ["async"]
         if any(op[0] == "kill" for op in case["ops"]): out.append("async:kill")
-        if obs["steps"] and obs["steps"][-1]["blocker"]: out.append("async:pending-at-end")
+        if obs["steps"] and not obs["steps"][-1]["armed"]: out.append("async:pending-at-end")
         return out
 
     def neighbours(self, case, rng):
@@ -883,9 +922,9 @@ class Check(PropertyCheck):
         else:
             ops = case["ops"]
             for i in range(len(ops) + 1):
-                for o in (["hook", 1], ["hook", 0], ["resume"], ["kill"], ["intercept"]):
+                for o in (["hook", 1], ["hook", 0], ["resume"], ["kill"], ["intercept"], ["hook", 1, 1], ["hook", 0, 1], ["resume", 1]):
                     yield {"level": "async", "ops": ops[:i] + [o] + ops[i:]}
 
     def exhaustive(self, tier):
+        yield from self._async_small(6, 5)
         yield from self._world_cases(3)
-        yield from self._async_small(6)
